@@ -455,6 +455,7 @@ class Ctx:
         self.seed = seed
         self.t0 = time.time()
         self.rng = SplitMix64(seed * 1000003 + int(prop[1:]))
+        self.round = 0        # thorough tier: the generators are re-run with fresh randomness until the time target is reached
         self.evaluations = 0
         self.nontrivial = set()
         self.samples = []
@@ -477,6 +478,15 @@ class Ctx:
         self.replay_n = 0
 
     # -- bookkeeping -------------------------------------------------------------------------
+    @property
+    def vseed(self):
+        """seed handed to the harnesses' own generators: differs per round of a thorough run"""
+        return self.seed + 1009 * self.round
+
+    def next_round(self):
+        self.round += 1
+        self.rng = SplitMix64((self.seed * 1000003 + int(self.prop[1:])) * 31 + self.round * 0x9E3779B1)
+
     def over_budget(self):
         """generators stop producing new cases when the tier's wall-clock budget is used up"""
         limit = float(os.environ.get("VERIF_BUDGET_S", "100" if self.tier == "quick" else "800"))
@@ -656,9 +666,9 @@ class Ctx:
                 "input_distribution": self.dist,
                 "proof_breaks": self.proof_breaks, "correspondence_breaks": self.corr_breaks,
                 "violations_found": [{k: v[k] for k in ("signature", "what", "count")} for v in self.violations],
-                "notes": self.notes, "repo_tree_hash": tree_hash(),
+                "notes": self.notes, "repo_tree_hash": tree_hash(), "rounds": self.round + 1,
             },
-            "assumptions": self.assumptions,
+            "assumptions": list(dict.fromkeys(self.assumptions)),
             "wall_s": round(time.time() - self.t0, 2),
             "violations": len(unknown) + (1 if rc and not unknown else 0),
         }
